@@ -390,8 +390,8 @@ func (g gatedClientSets) ClientFor(cluster string) (gatewayclientset.Interface, 
 	return nil, fmt.Errorf("verif: no client")
 }
 func (g gatedClientSets) ShardIDFor(cluster string) (int, error) { return g.real.ShardIDFor(cluster) }
-func (g gatedClientSets) IsReady(cluster string) bool           { return g.real.IsReady(cluster) }
-func (g gatedClientSets) ClientID() string                      { return g.real.ClientID() }
+func (g gatedClientSets) IsReady(cluster string) bool            { return g.real.IsReady(cluster) }
+func (g gatedClientSets) ClientID() string                       { return g.real.ClientID() }
 
 // wrapperProbeBudget bounds, per process, the probes that go through the max-in-flight count wrapper's waiting path
 // (each waiting TryAcquire leaks one goroutine inside waitAcquire, in the real code too).
@@ -785,7 +785,7 @@ func evaluate(c *rig.Ctx, cs Case, rnd func(int) int) (*failure, runResult) {
 			want := room(*o.Lim.Size, cnt)
 			if x.Probe > want {
 				return &failure{kind: "judge", class: "c09.admits-more-than-size", step: i, impl: x,
-					what: fmt.Sprintf("after op %d the limiter handed out says %q but admitted %d concurrent requests (probe via %s)", i, x.Str, x.Probe, x.ProbeVia)}, res
+					what: fmt.Sprintf("after op %d the limiter handed out says %q and %d requests it admitted are unfinished, but it admitted %d more (probe via %s): %d in flight exceed its size", i, x.Str, cnt, x.Probe, x.ProbeVia, cnt+int64(x.Probe))}, res
 			}
 			if x.Probe < want {
 				return &failure{kind: "diff", class: "c09.probe-below-size", step: i, impl: x,
@@ -796,7 +796,7 @@ func evaluate(c *rig.Ctx, cs Case, rnd func(int) int) (*failure, runResult) {
 			want := room(*o.RLim.Size, rcount)
 			if x.RProbe > want {
 				return &failure{kind: "judge", class: "c09.admits-more-than-size", step: i, impl: x,
-					what: fmt.Sprintf("after op %d the remote limiter says size %d but admitted %d concurrent requests", i, *o.RLim.Size, x.RProbe)}, res
+					what: fmt.Sprintf("after op %d the remote limiter says size %d and %d requests it admitted are unfinished, but it admitted %d more: %d in flight exceed its size", i, *o.RLim.Size, rcount, x.RProbe, rcount+int64(x.RProbe))}, res
 			}
 		}
 		if x.TBAdmit > x.TBAllowed {
